@@ -14,14 +14,16 @@ Inductive zop :=
 | ZC (src dst len : Z)
 | ZR (q b e : Z)
 | ZQ (q p : Z)
-| ZV (batch : list (Z * Z * Z)).       (* StartForward(reserve = true) + Put on every layer, graph reserved only *)
+| ZV (batch : list (Z * Z * Z))        (* StartForward(reserve = true) + Put on every layer, graph reserved only *)
+| ZFf (batch : list (Z * Z * Z)) (k : Z)   (* StartForward during which the k-th mask upload fails (0 = first cache) *)
+| ZRf (q b e : Z).                     (* Remove during which the backend calls of shift fail *)
 
 Definition conv_batch (l : list (Z * Z * Z)) : list entry :=
   map (fun x => let '(q, p, t) := x in (Z.to_nat q, p, Z.to_N t)) l.
 
 Definition to_op (o : zop) : op :=
   match o with
-  | ZV _ => CanResume 0 0
+  | ZV _ | ZFf _ _ | ZRf _ _ _ => CanResume 0 0
   | ZF l => Forward (map (fun x => let '(q, p, t) := x in (Z.to_nat q, p, Z.to_N t)) l)
   | ZC s d len => Copy (Z.to_nat s) (Z.to_nat d) len
   | ZR q b e => Remove (Z.to_nat q) b e
@@ -30,7 +32,7 @@ Definition to_op (o : zop) : op :=
 
 Inductive zout :=
 | BFwd (loc mn mx : Z) (vis : list (list Z))
-| BFull | BShared | BNotSupported
+| BFull | BShared | BNotSupported | BBackend
 | BOk
 | BBool (b : bool)
 | BPanic.
@@ -55,6 +57,7 @@ Definition eqb_out (m : out) (o : zout) : bool :=
   | OErr EFull, BFull => true
   | OErr EShared, BShared => true
   | OErr ENotSupported, BNotSupported => true
+  | OErr EBackend, BBackend => true
   | OOk, BOk => true
   | OBool a, BBool b => Bool.eqb a b
   | OPanic, BPanic => true
@@ -93,6 +96,8 @@ Definition eqb_state (c : cache) (o : zobs) : bool :=
 Definition zstep (fx : bool) (c : cache) (o : zop) : cache * out :=
   match o with
   | ZV l => reserve_forward c (conv_batch l)
+  | ZFf l _ => start_forward_fault fx c (conv_batch l)
+  | ZRf q b e => remove_fault c (Z.to_nat q) b e
   | _ => step fx c (to_op o)
   end.
 
@@ -147,7 +152,11 @@ Fixpoint first_diff_w (fx : bool) (w : cache * cache) (i : nat) (steps : list (z
   match steps with
   | [] => None
   | (o, (b0, b1)) :: t =>
-      let '(w', r0, r1) := wstep fx w (to_op o) in
+      let '(w', r0, r1) := match o with
+                           | ZFf l k => let '(w1, r) := wforward_fault fx w (conv_batch l) (Z.to_nat k) in (w1, r, r)
+                           | ZRf q b e => let '(w1, r) := wremove_fault w (Z.to_nat q) b e in (w1, r, r)
+                           | _ => wstep fx w (to_op o)
+                           end in
       match r0 with
       | OPanic => match o_out b0 with BPanic => None | _ => Some i end
       | _ => if eqb_out r0 (o_out b0) && (if is_fwd r0 then eqb_out r1 (o_out b1) else true)
